@@ -35,12 +35,15 @@ impl Opts {
             "dbg" => 8,
             "asan" => 6,
             "tsan" => 10,
-            "miri" => 20000,
             "valgrind" => 60,
             _ => 1,
         };
-        let floor = if self.variant == "miri" { 6 } else { 1 };
-        (base / div).max(floor)
+        if self.variant == "miri" {
+            // Miri runs in the thorough tier only, in 16 single-core shards of
+            // about 20 s per case: sized from the quick figure, not the tier's
+            return (q / 200).max(32);
+        }
+        (base / div).max(1)
     }
     pub fn wants(&self, family: &str) -> bool {
         match &self.only {
@@ -271,6 +274,10 @@ impl Run {
             return;
         }
         let next = AtomicU64::new(0);
+        // `--shard k/n`: this process takes the indices congruent to k modulo n
+        // (the supervisor runs the n shards side by side; used for Miri, which
+        // interprets on one core per process)
+        let shard = self.shard();
         let chunk = (total / (self.opts.jobs as u64 * 64)).clamp(1, 4096);
         let jobs = self.opts.jobs.max(1).min(total.max(1) as usize);
         // worker stacks: what std gives a spawned thread in an optimised build,
@@ -291,13 +298,22 @@ impl Run {
                         }
                         let hi = (lo + chunk).min(total);
                         for i in lo..hi {
-                            f(i, &mut l);
+                            if shard.map_or(true, |(k, n)| i % n == k) {
+                                f(i, &mut l);
+                            }
                         }
                     }
                     self.merge(l);
                 });
             }
         });
+    }
+
+    pub fn shard(&self) -> Option<(u64, u64)> {
+        self.opts.extra.get("shard").and_then(|v| {
+            let (k, n) = v.split_once('/')?;
+            Some((k.parse().ok()?, n.parse::<u64>().ok()?.max(1)))
+        })
     }
 
     pub fn is_child(&self) -> bool {
@@ -327,7 +343,7 @@ impl Run {
         }
         let indexes: Vec<u64> = match self.opts.only_index(family) {
             Some(i) => vec![i],
-            None => (0..total).collect(),
+            None => (0..total).filter(|i| self.shard().map_or(true, |(k, n)| i % n == k)).collect(),
         };
         let next = AtomicU64::new(0);
         let exe = std::env::current_exe().expect("current_exe");
